@@ -18,10 +18,16 @@ Grid == {T(d, s) : d \in {k * (IF Big THEN 9973 ELSE 99991) - 700000 : k \in 0..
 C(y, m, d) == [y |-> y, m |-> m, d |-> d]
 DateSet == {C(1, 1, 1), C(1969, 12, 31), C(1970, 1, 1), C(2000, 2, 29), C(2038, 1, 19), C(2038, 1, 20), C(2040, 1, 1), C(9999, 12, 31), C(0, 3, 1), [rel |-> 0], [rel |-> 1]}
        \cup {C(y, m, 15) : y \in {1600, 1900, 2022}, m \in {1, 6, 12}}
+DtDates == {C(1970, 1, 1), C(2000, 2, 29), C(2022, 10, 1), C(2038, 1, 19), C(1969, 12, 31), C(9999, 12, 31), C(0, 3, 1)}
 Lines == {[form |-> "unix_from", ts |-> t, z |-> z] : t \in Boundary \cup Grid, z \in Zones \cup {NoZone}}
     \cup {[form |-> "unix_round", ts |-> t, z |-> z] : t \in Boundary \cup Grid, z \in Zones \cup {NoZone}}
     \cup {[form |-> "unix_to_date", a |-> a] : a \in DateSet}
     \cup {[form |-> "unix_to_time", w |-> w] : w \in {0, 1800, 32707, 41400, 84600, 86399}}
+    \* date-times written as '<date> at <time>': the value, its timestamp on one line, shifted by a duration, shown in a zone
+    \cup {[form |-> f, a |-> a, w |-> w] : f \in {"dt_at", "dt_unix"}, a \in DtDates, w \in {0, 1800, 45015, 84600, 86399}}
+    \cup {[form |-> "dt_shift", a |-> a, w |-> w, op |-> o, parts |-> p] : a \in DtDates, w \in {1800, 84600}, o \in {"+", "-"},
+              p \in {<<[n |-> 2, u |-> "hour"]>>, <<[n |-> 90, u |-> "minute"], [n |-> 30, u |-> "second"]>>, <<[n |-> 3, u |-> "day"]>>}}
+    \cup {[form |-> "dt_conv", a |-> a, w |-> w, z2 |-> z] : a \in DtDates, w \in {1800, 84600}, z \in Zones}
 VARIABLE c
 Init == \E d \in Defs : \E l \in Lines : c = [def |-> d, line |-> l]
 Next == UNCHANGED c
